@@ -20,10 +20,10 @@ type fragCase struct {
 }
 
 type hsView struct {
-	ok      bool
-	version byte
-	auth    []byte
-	iKeys   [2][32]byte
+	ok               bool
+	version          byte
+	auth             []byte
+	iKeys            [2][32]byte
 	remoteI, remoteR []byte
 }
 
@@ -188,11 +188,11 @@ func (w *partialWriter) Write(p []byte) (int, error) {
 }
 
 type partCase struct {
-	Cfg   hsConfig `json:"cfg"`
-	Len   int      `json:"len"`
-	Pos   int      `json:"pos"`  // records written before the one under test
-	Cuts  []int    `json:"cuts"` // absolute offsets in the wire record
-	Frag  []int    `json:"frag"` // read fragmentation used by the peer
+	Cfg  hsConfig `json:"cfg"`
+	Len  int      `json:"len"`
+	Pos  int      `json:"pos"`  // records written before the one under test
+	Cuts []int    `json:"cuts"` // absolute offsets in the wire record
+	Frag []int    `json:"frag"` // read fragmentation used by the peer
 }
 
 // partSess keeps a reference session and a session under test in lock step so
